@@ -20,6 +20,7 @@ MUTANTS = [m_ for m_ in MUTANTS if m_[2]]
 MUTANTS += [
     ('non-vertical test by the sign of the direction cosines', [('pulse.Pulse.is_non_vertical_grounded', "and (self.segs [0].dirvec [0] or self.segs [0].dirvec [1])", "and (self.segs [0].dirvec [:2] > 0).any ()")], ['direction-sign']),
     ('taper from the radius as entered', [('mininec.Wire.compute_taper1_segments', "self.n_segments, self.r, **d)", "self.n_segments, self.r_unscaled, **d)")], ['unscaled-for-writer']),
+    ('rotation refreshes the end points with an early-return flag', [('mininec.Wire.rotate', "        self.compute_endpoints ()", "        self.compute_endpoints (True)"), ('mininec.Wire.compute_endpoints', "    def compute_endpoints (self):\n", "    def compute_endpoints (self, keep = False):\n        if keep:\n            return\n")], ['SIB.transform']),
 ]
 REFACTORS = [
     ('non-vertical test by absolute value', [('pulse.Pulse.is_non_vertical_grounded', "and (self.segs [0].dirvec [0] or self.segs [0].dirvec [1])", "and bool ((np.abs (self.segs [0].dirvec [:2]) > 0).any ())")]),
